@@ -16,10 +16,11 @@ R(a, k, kind, hold, d) == RJ(a, k, kind, hold, d, 0)
 Init == kinds = <<>> /\ sw = 0 /\ len = 0 /\ op = [a |-> "init", k |-> 0, kind |-> "", iv |-> 0, jit |-> 0, d |-> 0, hold |-> FALSE]
 Reg(kind, hold) == /\ NK < NF /\ kinds' = Append(kinds, kind) /\ UNCHANGED sw
                    /\ \E j \in (IF kind \in {"per", "ptrig"} THEN {0, -4} ELSE {0}) : RJ("reg", NK + 1, kind, hold, 0, j)
-Fire(k) == k \in 1..NK /\ kinds[k] \in {"trig", "ptrig"} /\ UNCHANGED <<kinds, sw>> /\ R("fire", k, "", FALSE, 0)
+Fire(k) == k \in 1..NK /\ kinds[k] \in {"trig", "ptrig"} /\ UNCHANGED <<kinds, sw>>
+           /\ \E a \in {"fire", "fire3"} : R(a, k, "", FALSE, 0)     \* fire3: from three goroutines at the same moment
 Adv(d) == UNCHANGED <<kinds, sw>> /\ R("adv", 0, "", FALSE, d)
 Rel(k) == k \in 1..NK /\ UNCHANGED <<kinds, sw>> /\ R("rel", k, "", FALSE, 0)
-Stop == UNCHANGED <<kinds, sw>> /\ \E a \in {"stop", "cancelparent"} : R(a, 0, "", FALSE, 0)
+Stop == UNCHANGED <<kinds, sw>> /\ \E a \in {"stop", "cancelparent", "expireparent"} : R(a, 0, "", FALSE, 0)
 StopWait == sw < 2 /\ sw' = sw + 1 /\ UNCHANGED kinds /\ R("stopwait", 0, "", FALSE, 0)
 Next == /\ len < MaxLen
         /\ \/ \E kind \in Kinds, hold \in BOOLEAN : Reg(kind, hold)
